@@ -169,6 +169,9 @@ func judgeC18(t *testing.T, sc C18Script) (key, msg string, res *c18Result) {
 	})
 	mu.Lock()
 	defer mu.Unlock()
+	if core.IsInconclusive(err) {
+		return "inconclusive", err.Error(), nil
+	}
 	if res == nil {
 		return "harness/bubble", fmt.Sprint(err), nil
 	}
@@ -264,6 +267,10 @@ func TestC18(t *testing.T) {
 	rapid.Check(t, func(rt *rapid.T) {
 		sc, quick := genC18(rt)
 		key, msg, _ := judgeC18(t, sc)
+		if key == "inconclusive" {
+			st.AddInconclusive()
+			return
+		}
 		st.Case(sc, quick && len(sc.Steps) >= 3, fmt.Sprintf("gomaxprocs:%d", sc.Procs))
 		if key != "" {
 			st.Fail(key, msg, sc)
@@ -289,6 +296,9 @@ func TestReplay(t *testing.T) {
 	var key, msg string
 	for i := 0; i < 200 && key == ""; i++ {
 		key, msg, _ = judgeC18(t, sc)
+		if key == "inconclusive" {
+			key = ""
+		}
 	}
 	core.ReplayVerdict(t, f.Property, key, msg)
 }
